@@ -36,11 +36,11 @@ const (
 )
 
 type op struct {
-	K    opKind
-	I    int   // instance
-	Alc  bool  // OBegin: FromAlloc?
-	Out  int   // OFinish: 0 Ok 1 ErrNotApplied 2 ErrApplied
-	M    int64 // ONew member / OSetLeader member (0 = delete)
+	K   opKind
+	I   int   // instance
+	Alc bool  // OBegin: FromAlloc?
+	Out int   // OFinish: 0 Ok 1 ErrNotApplied 2 ErrApplied
+	M   int64 // ONew member / OSetLeader member (0 = delete)
 }
 
 func (o op) coq() string {
